@@ -18,7 +18,8 @@ RULE = (
     "transaction-context}, run through tealer.__main__.main in-process. Oracle: no exception other than "
     "SystemExit(0), no 'Error:' line, JSON parses with error == null, expected output files exist and are "
     "non-empty. analysis: many more G2 programs (modelled, direct with cross-block connective operands, group-heavy) through "
-    "init_tealer_from_single_contract + all nine detectors in-process: no internal error. Non-trivial = program uses >= 1 adversarial layout feature or >= 1 subroutine; distinct by source."
+    "init_tealer_from_single_contract + all nine detectors in-process: no internal error; the same for every program of "
+    "the exhaustively enumerated family of single direct checks (field x operator x operand order x negation x consumer x constant spelling). Non-trivial = program uses >= 1 adversarial layout feature or >= 1 subroutine; distinct by source."
 )
 ASSUMPTIONS = ["generated programs are assembler-valid and enter subroutine bodies only through callsub (by construction)"]
 
@@ -115,6 +116,10 @@ def components(tier, disabled):
                                                    semantic_program(profile="direct", disabled=disabled, xflag=True),
                                                    semantic_program(profile="modelled+group", disabled=disabled)),
                              "check": check_analysis, "examples": 4000 if q else 200000, "sample": lambda c, i: RCFG(c).text}
+        from vf.props.single_family import single_cases
+
+        # the finite family of single direct checks (every operator / operand order / constant spelling), exhaustive
+        comps["single"] = {"enumerate": single_cases, "check": check_analysis, "exhaustive": True, "shards": 16, "sample": lambda c, i: c["desc"]}
     except ImportError:
         pass
     return comps
